@@ -24,10 +24,15 @@ TOL = 1e-9          # float64 paths (DESIGN section 8): |x - y| <= TOL * (1 + |y
 
 RULE = ('the empty dendrogram (one leaf); all merge orders of dendrograms over n <= 5 leaves (quick; thorough n <= 6, sampled n = 7) '
         'x height patterns {distinct, all tied, some ties, monotone towards the root but unsorted, the same with distinct heights, '
-        'infinite tail, arbitrary} (quick: 2 patterns for n = 5, 120 orders for n = 6), sampled orders up to 10 leaves. Options per '
+        'infinite tail, arbitrary} and signed patterns {minus the depth as get_dendrogram writes it, a positive pattern shifted so that 0 '
+        'is one of the heights / lies between two heights / is the largest height / is above all heights, logarithms of heights on both '
+        'sides of 1, arbitrary from {-2, -1, -1/2, 0, -0.0, 1/2, 1}, all zero} (quick: 2 + 1 patterns for n = 5, 120 orders for n = 6), '
+        'sampled orders up to 10 leaves, Paris dendrograms also on a logarithmic scale. Thresholds: None, below / at / between / above '
+        'the occurring heights, +inf, and the special value zero handed over as 0, 0.0 (and -0.0, np.float64(0) when a height is <= 0), '
+        'alone and together with every n_clusters. Options per '
         'dendrogram: the full cross product cut_straight x n_clusters in {None, 0..n+1} x thresholds around the heights x '
         'sort_clusters x return_dendrogram, cut_balanced x max_cluster_size in 1..n+1 x options, aggregate_dendrogram x n_clusters in '
-        '0..n+1 x return_counts for n <= 4; for n >= 5 a SAMPLE per dendrogram (2 + 7 cut_straight, 4 cut_balanced, 2 + 3 aggregate '
+        '0..n+1 x return_counts for n <= 4; for n >= 5 a SAMPLE per dendrogram (2 + 7 cut_straight plus 2-4 with threshold zero, 4 cut_balanced, 2 + 3 aggregate '
         'combinations). Dendrograms with an inversion are sent too (known finding F24). Metrics x {uniform, degree} x normalized on: all '
         'graphs of 3 nodes with loops, sampled digraphs, structured weighted (di)graphs n <= 9, every non-empty pattern on 2 nodes, '
         'structured graphs with 10-16 nodes, empty graphs (errors compared), rank-one matrices outer(r, c) n = 2..4 (mutual information 0), weights that are not float32 '
@@ -54,6 +59,38 @@ def _opt(x):
 
 def _opt_ht(x):
     return '_' if x is None else dd.enc_ht(x)
+
+
+# the forms of a threshold that is exactly zero: all of them are falsy in Python and are thresholds all the same
+ZERO_FORMS = {'int': 0, 'float': 0.0, 'negzero': -0.0, 'np.float64': np.float64(0.0)}
+
+
+def _thr_form(x):
+    """how the threshold is handed over (the model sees its value only)"""
+    if x is None:
+        return None
+    if isinstance(x, np.floating):
+        return 'np.float64'
+    if isinstance(x, int):
+        return 'int'
+    return 'negzero' if (x == 0 and math.copysign(1.0, x) < 0) else 'float'
+
+
+def _thr_key(x):
+    return None if x is None else (_thr_form(x), dd.enc_ht(x))
+
+
+def _thr_from(tok, form):
+    if tok is None:
+        return None
+    v = float('inf') if tok == 'inf' else float(Fraction(tok))
+    if form == 'int' and v == int(v):
+        return int(v)
+    if form == 'negzero' and v == 0:
+        return -0.0
+    if form == 'np.float64':
+        return np.float64(v)
+    return v
 
 
 def _enc_cut(out, ret):
@@ -107,13 +144,15 @@ def case_straight(d, n, k, thr, srt, ret, mono=None):
         nontriv = 1 < kk < n
     sig = {'entry': 'cut_straight', 'n_clusters': _kclass(k, n), 'threshold': thr is not None,
            'return_dendrogram': ret}
+    if thr is not None and thr == 0:
+        sig['threshold_zero'] = True
     if mono is None:
         mono = dd.is_mono_paths(d, n)
     if not mono:
         sig['mono'] = False            # a child merge higher than its parent somewhere (valid, but see F24)
     desc = {'f': 'cut_straight', 'dendrogram': _ddesc(d), 'n_clusters': k, 'threshold': None if thr is None else dd.enc_ht(thr),
-            'sort_clusters': srt, 'return_dendrogram': ret}
-    c = Case(('straight', dt, k, thr, srt, ret), sig, run, impl, spec, nontriv, desc, canon='labels')
+            'threshold_form': _thr_form(thr), 'sort_clusters': srt, 'return_dendrogram': ret}
+    c = Case(('straight', dt, k, _thr_key(thr), srt, ret), sig, run, impl, spec, nontriv, desc, canon='labels')
     c.tol = admissible
     return c
 
@@ -365,14 +404,21 @@ def thresholds_for(d, rng, full):
         cand += [(a + b) / 2 for a, b in zip(hs, hs[1:])]
         cand += hs[1:-1]
     cand += [float('inf')]
+    # the special value zero in its forms (0 == 0.0 == -0.0: told apart by the form, not by the value)
+    signed = bool(hs) and hs[0] <= 0
+    zeros = [ZERO_FORMS[f] for f in (('int', 'float', 'negzero', 'np.float64') if signed else ('int', 'float'))]
     seen, out = set(), []
     for x in cand:
-        if x not in seen:
-            seen.add(x)
+        if x is not None and x == 0:
+            continue                     # zero comes in through `zeros`
+        if _thr_key(x) not in seen:
+            seen.add(_thr_key(x))
             out.append(x)
     if not full and len(out) > 4:
         out = [None] + rng.sample(out[1:], 3)
-    return out
+    if not full:
+        zeros = rng.sample(zeros, 2 if signed else 1)
+    return out + zeros
 
 
 def cases_for_dendro(ctx, d, n, rng, full, mono):
@@ -383,7 +429,14 @@ def cases_for_dendro(ctx, d, n, rng, full, mono):
     combos = [(k, thr, srt, ret) for k in ks for thr in thrs for srt in (True, False) for ret in (False, True)]
     if not full:
         must = [c for c in combos if c[0] in (1, n) and c[1] is None and c[2]]
-        combos = rng.sample(must, min(2, len(must))) + rng.sample(combos, min(7, len(combos)))
+        # threshold exactly zero: alone, and together with an n_clusters whose own cut lies below / above it
+        zero = [c for c in combos if c[1] is not None and c[1] == 0]
+        zero_alone = [c for c in zero if c[0] is None]
+        zero_both = [c for c in zero if c[0] is not None and 1 <= c[0] <= n]
+        negative = bool(len(d)) and float(np.min(d[:, 2])) < 0
+        combos = (rng.sample(must, min(2, len(must))) + rng.sample(combos, min(7, len(combos)))
+                  + rng.sample(zero_alone, min(2 if negative else 1, len(zero_alone)))
+                  + rng.sample(zero_both, min(2 if negative else 1, len(zero_both))))
     for k, thr, srt, ret in combos:
         out.append(case_straight(d, n, k, thr, srt, ret, mono))
     combos = [(m, srt, ret) for m in range(1, n + 2) for srt in (True, False) for ret in (False, True)]
@@ -406,7 +459,7 @@ def cases_for_dendro(ctx, d, n, rng, full, mono):
 
 def dendros(ctx, rng, quick):
     """(dendrogram, n, mono, full_options) stream."""
-    modes = dd.HEIGHT_MODES
+    modes = dd.ALL_MODES
     # a single leaf: the empty dendrogram
     ctx.count('dendro:n=1')
     yield np.zeros((0, 4)), 1, True, True
@@ -424,17 +477,17 @@ def dendros(ctx, rng, quick):
         if limit is not None and len(orders) > limit:
             orders = rng.sample(orders, limit)
         for pairs in orders:
-            ms = modes if (n == 4 or not quick) else rng.sample(modes, 2)
+            ms = modes if (n == 4 or not quick) else rng.sample(dd.HEIGHT_MODES, 2) + rng.sample(dd.SIGNED_MODES, 1)
             for mode in ms:
                 hs = dd.heights_for(rng, pairs, n, mode)
                 d = dd.mk_dendro(pairs, hs, n, rng)
                 ctx.count('dendro:n=%d' % n)
                 ctx.count('heights:' + mode)
                 yield d, n, dd.is_mono_paths(d, n), (n == 4)
-    for _ in range(60 if quick else 800):
+    for it in range(90 if quick else 1200):
         n = rng.randint(7, 10)
         pairs = rng.choice([dd.random_merge_order(rng, n), dd.random_merge_order(rng, n), dd.caterpillar(n)])
-        mode = rng.choice(modes)
+        mode = rng.choice(dd.HEIGHT_MODES if it % 3 else dd.SIGNED_MODES)
         d = dd.mk_dendro(pairs, dd.heights_for(rng, pairs, n, mode), n, rng)
         ctx.count('dendro:n=%d' % n)
         ctx.count('heights:' + mode)
@@ -448,7 +501,8 @@ def extra_dendros(ctx, rng, quick):
     for _ in range(3 if quick else 40):
         n = rng.randint(21, 26)
         pairs = dd.random_merge_order(rng, n)
-        d = dd.mk_dendro(pairs, dd.heights_for(rng, pairs, n, rng.choice(['distinct', 'ties', 'mono_unsorted'])), n, rng)
+        d = dd.mk_dendro(pairs, dd.heights_for(rng, pairs, n, rng.choice(['distinct', 'ties', 'mono_unsorted', 'neg_depth',
+                                                                          'zero_at', 'log'])), n, rng)
         ctx.count('dendro:n>20')
         yield d, n, dd.is_mono_paths(d, n)
     for name, n, es, w in graphs.suite(rng, 12 if quick else 150, 3, 9, weights=[1, 2, 3, 0.7], directed_ok=False):
@@ -469,6 +523,14 @@ def extra_dendros(ctx, rng, quick):
             continue
         ctx.count('dendro:paris')
         yield d, n, dd.is_mono_paths(d, n)
+        # the same tree on a logarithmic scale (heights below 1 become negative; +inf stays)
+        if np.all(d[:, 2] > 0):
+            dl = d.copy()
+            with np.errstate(over='ignore'):
+                dl[:, 2] = np.log(d[:, 2])
+            if dd.enc_dendro(dl) is not None:
+                ctx.count('dendro:paris-log')
+                yield dl, n, dd.is_mono_paths(dl, n)
 
 
 def metric_inputs(ctx, rng, quick):
@@ -589,8 +651,7 @@ def cases_from_desc(desc):
         return []
     d = _dfrom(desc['dendrogram'])
     n = len(d) + 1
-    thr = desc.get('threshold')
-    thr = None if thr is None else (float('inf') if thr == 'inf' else float(Fraction(thr)))
+    thr = _thr_from(desc.get('threshold'), desc.get('threshold_form'))
     if f == 'cut_straight':
         return [case_straight(d, n, desc.get('n_clusters'), thr, desc.get('sort_clusters', True), desc.get('return_dendrogram', False))]
     if f == 'cut_balanced':
@@ -634,7 +695,7 @@ def search(ctx, pending):
     cases = []
     for n in (2, 3, 4):
         for pairs in dd.all_merge_orders(n):
-            for mode in dd.HEIGHT_MODES:
+            for mode in dd.ALL_MODES:
                 d = dd.mk_dendro(pairs, dd.heights_for(rng, pairs, n, mode), n, rng)
                 cases += cases_for_dendro(ctx, d, n, rng, True, dd.is_mono_paths(d, n))
     for es in graphs.all_undirected(3, loops=True):
